@@ -50,7 +50,12 @@ def run(ctx):
             # the call events carry the arguments in parameter order with locals replaced by what they hold
             cm_t, ctl_t = cms[0].text, ctls[0].text
             got = [{cm_t: 'CM', ctl_t: 'CTL'}.get(norm(a), norm(a)) for a in calls[0].args]
-            ok = got == want and not calls[0].kwargs and len(ctls[0].args) >= 2 and norm(ctls[0].args[0]) == 'output' and norm(ctls[0].args[1]) == cm_t
+            # the pinned parameters receive the run's one output / manager / controller, in their positions; parameters the entry function gained
+            # since (a switch for an additional report, say) may follow - they do not say what is fed to whom
+            pinned_n = len(want)
+            extra_ok = all(isinstance(a, (ast.Constant, ast.Attribute, ast.Name)) for a in calls[0].args[pinned_n:]) and \
+                all(isinstance(v, (ast.Constant, ast.Attribute, ast.Name)) for v in calls[0].kwargs.values())
+            ok = got[:pinned_n] == want and extra_ok and len(ctls[0].args) >= 2 and norm(ctls[0].args[0]) == 'output' and norm(ctls[0].args[1]) == cm_t
         ctx.check(ok, 'C13.1', 'pipeline:%s' % mode, f_main.loc(calls[0].node if calls else None),
                   'mode %s feeds the one ConnectionManager / Controller / Output of this run through %s' % (mode, fn),
                   'mode %s is wired as %s' % (mode, [e.text[:100] for e in calls]))
@@ -150,6 +155,11 @@ def run(ctx):
             env_stores = [x for x in p.events[:idx] if x.kind in ('store', 'del') and same_obj(x)]
             wd = [x for x in env_stores if x.kind == 'store' and x.target == envtxt + "['WAYLAND_DEBUG']" and norm(x.value) == "'1'"]
             muts = [x for x in p.events[:idx] if x.kind == 'call' and x.recv is not None and norm(x.recv) == envtxt and x.ftext and x.ftext.split('.')[-1] in ('update', 'pop', 'clear', 'setdefault', 'popitem')]
+            # variables the user asked for (an option carried in the parsed arguments) may be merged in BEFORE WAYLAND_DEBUG is set: what the
+            # property promises - WAYLAND_DEBUG=1 in the child's environment - still holds whatever they contain
+            if wd:
+                i_wd = p.events.index(wd[0])
+                muts = [x for x in muts if not (x.ftext.split('.')[-1] == 'update' and len(x.args) == 1 and not x.kwargs and norm(x.args[0]).startswith('self.args.') and p.events.index(x) < i_wd)]
             ctx.check(envtxt == 'os.environ.copy()' and len(wd) == 1 and env_stores[-1:] and (wd[0] is env_stores[-1] or all("'WAYLAND_DEBUG'" not in (x.target or '') for x in env_stores[env_stores.index(wd[0]) + 1:])) and not muts,
                       'C13.3', 'child:env', f_run.loc(c),
                       'the environment is a copy of ours with WAYLAND_DEBUG=1 stored unconditionally before the start', 'environment is %s / WAYLAND_DEBUG stores %s / other mutations %s' % (envtxt[:60], [x.text for x in wd], [x.text[:40] for x in muts]))
